@@ -1,7 +1,17 @@
 module verifharness
 
-go 1.15
+go 1.22.0
 
-require github.com/dekarrin/rosed v0.0.0
+toolchain go1.23.5
+
+require (
+	github.com/dekarrin/rosed v0.0.0
+	golang.org/x/tools v0.29.0
+)
+
+require (
+	golang.org/x/mod v0.22.0 // indirect
+	golang.org/x/sync v0.10.0 // indirect
+)
 
 replace github.com/dekarrin/rosed => /repo
